@@ -12,6 +12,7 @@ import (
 	"servitor/jtp"
 	"servitor/pub"
 	"strings"
+	"sync/atomic"
 	"time"
 )
 
@@ -189,6 +190,10 @@ func init() {
 		_, opid := installWorld(op)
 		annotateDocs(op)
 		jtp.VerifCachePurge()
+		if l := I(op, "latency"); l > 0 {
+			atomic.StoreInt64(&simLatencyMicros, int64(l))
+			defer atomic.StoreInt64(&simLatencyMicros, 0)
+		}
 		start := substitute(S(op, "start"), s.hosts, opid)
 		op["start_sub"] = start
 		if u, err := url.Parse(start); err == nil {
@@ -475,6 +480,9 @@ func genPubWorld(r *rand.Rand, n int, emit func(Op)) {
 			continue
 		}
 		g := &worldGen{r: r, query: r.Intn(4) == 0, rel: relativeRefs && r.Intn(3) == 0}
+		/* documents whose URLs differ in letter case only, fetched at the same moment (the servers
+		   answer with a delay so that the requests overlap) */
+		twins := r.Intn(5) == 0
 		home := r.Intn(simHosts)
 		evil := (home + 1 + r.Intn(simHosts-1)) % simHosts
 		if r.Intn(8) == 0 {
@@ -633,6 +641,20 @@ func genPubWorld(r *rand.Rand, n int, emit func(Op)) {
 			au := g.serve(h, fmt.Sprintf("act%d", a), fields)
 			acts = append(acts, g.refTo(home, au, fields))
 			actFields = append(actFields, fields)
+			if twins && r.Intn(2) == 0 {
+				/* another activity whose URL differs from this one's in letter case only, listed
+				   right next to it (both are fetched at the same moment): its own document, with
+				   its own id, actor and object */
+				tname := strings.ToUpper(fmt.Sprintf("act%d", a))
+				tfields := map[string]any{"type": pick(r, []string{"Create", "Announce", "Like"}), "id": g.url(h, tname),
+					"actor": pick(r, []any{malloryURL, aliceURL, bobURL}), "object": pick(r, notes)}
+				tu := g.serve(h, tname, tfields)
+				if r.Intn(2) == 0 {
+					acts = append(acts, tu)
+				} else {
+					acts = append(acts[:len(acts)-1], tu, acts[len(acts)-1])
+				}
+			}
 			if r.Intn(8) == 0 {
 				/* entries that are no activities: nothing, numbers, lists, a bare note, a note by reference */
 				acts = append(acts, pick(r, []any{g.junk(), g.junk(), []any{au}, g.embed(home, noteFields[k]), notes[k]}))
@@ -714,7 +736,14 @@ func genPubWorld(r *rand.Rand, n int, emit func(Op)) {
 			}
 		}
 		starts = append(starts, malloryURL, malloryURL, moutbox)
-		emit(Op{"op": "pubworld", "routes": g.routes, "start": pick(r, starts), "before": before, "harvest": pick(r, []int{0, 1, 1 + r.Intn(8), 1 + r.Intn(8), 1 + r.Intn(8)}), "more": moreAmounts(r), "parents": r.Intn(5)})
+		op := Op{"op": "pubworld", "routes": g.routes, "start": pick(r, starts), "before": before, "harvest": pick(r, []int{0, 1, 1 + r.Intn(8), 1 + r.Intn(8), 1 + r.Intn(8)}), "more": moreAmounts(r), "parents": r.Intn(5)}
+		if twins {
+			op["latency"] = pick(r, []int{2000, 5000, 10000})
+			op["start"] = pick(r, []string{outboxURL, aliceURL, outboxURL})
+			op["harvest"] = 4 + r.Intn(8)
+			op["before"] = []any{}
+		}
+		emit(op)
 	}
 }
 
